@@ -130,6 +130,17 @@ Fixpoint adr_fixed (pyr : bool) (start : Z) (cs : list contact) : list Z :=
 Definition get_rows {A} (nefc : Z) (idx : list Z) (dev_row : list A) : option (list A) :=
   match np_gather dev_row idx with Some v => np_assign_full nefc v | None => None end.
 
+(* efc_J (dense result, nv >= 2): efc_J = d.efc.J.numpy()[world_id, :nefc, :nv]; result.efc_J[:nefc*nv] = efc_J[efc_idx].flatten()
+   -- gathered BEFORE the other efc arrays, from an array that has only nefc rows (so an index >= nefc is an IndexError and a
+   negative one wraps relative to nefc), and without the length-1 broadcast; skipped when nefc = 0 *)
+Definition get_J_rows {A} (nefc : Z) (idx : list Z) (dev_row : list A) : option (list A) :=
+  if 0 <? nefc then
+    match np_gather (np_take nefc dev_row) idx with
+    | Some v => if zlen v =? nefc then Some v else None
+    | None => None
+    end
+  else Some [].
+
 (* everything get_data_into derives from the contact / efc buffers of world w.
    dev: flat contact buffer (length naconmax), nacon_dev = d.nacon[0], nefc_dev = d.nefc[w], row = one efc array of world w *)
 Record efc_view := mkV { v_contacts : list contact; v_idx : list Z; v_adr : list Z; v_nefc : Z }.
